@@ -8,7 +8,7 @@ miss=0
 for p in seeded/*/patch.diff mutants/*/*.diff; do
   [ -f "$p" ] || continue
   case $p in
-    seeded/*) id=$(basename "$(dirname "$p")"); id=${id%%-*} ;;
+    seeded/*) id=$(basename "$(dirname "$p")"); id=${id%%-*} ;;   # C01-1, C01-r2-1 -> C01
     mutants/*) id=$(basename "$(dirname "$p")") ;;
   esac
   out=$(tools/trymut.sh "$p" "$id" "$TIER" 2>&1); rc=$?
